@@ -15,7 +15,9 @@ LEVEL = 'exploration'
 LINES_BASE, LINES_PER_BYTE = 20000, 20000
 NODES_BASE, NODES_PER_BYTE = 1000, 64
 TEXT_BASE, TEXT_PER_BYTE = 1000, 2      # every decoded character comes from a byte of its own
-RULE = ('overlap: bodies of nested arrays (aas, aao, aaay, aag, a(s)) built of 64 / 1000 / 3000 eight-byte frames in which the '
+RULE = ('additive: valid messages with 60 / 400 (/ 1500) unknown header fields and a 250..2000-element body, SIGNATURE field first / '
+        'in the middle / last: traced lines for the whole <= 3 x (fields alone + body alone) + 5000 (a relation between three '
+        'runs on the same interpreter, no absolute budget). overlap: bodies of nested arrays (aas, aao, aaay, aag, a(s)) built of 64 / 1000 / 3000 eight-byte frames in which the '
         'inner container under-claims its length while its element over-claims past the end of the message, the outer length '
         'chosen so a decoder that trusts declared extents walks frame by frame (sibling values that would overlap). '
         'repeat also holds 800 KB dictionaries with one repeated key (30 s against 0.2 s); deep_valid also holds long body '
@@ -633,6 +635,57 @@ def classify_repeat(case):
     return True, [case['shape'], case['place']]
 
 
+# --------------------------------------------------------------------------
+# work adds up: header fields and body are each decoded once
+
+def enum_additive(tier):
+    """A message with F unknown header fields AND a sizeable body must cost about what the fields alone plus the body alone
+    cost: neither part is decoded again for every element of the other.  The SIGNATURE field stands first, in the middle
+    or last among the fields (a peer's encoder may order them as it likes)."""
+    for F in ((60, 400) if tier == 'quick' else (60, 400, 1500)):
+        for body in ('ay', 'as', 'a(ii)'):
+            for sigpos in ('first', 'middle', 'last'):
+                for little in (True, False):
+                    yield {'F': F, 'body': body, 'sigpos': sigpos, 'little': little}
+
+
+def _additive_message(case, with_fields, with_body):
+    F = case['F'] if with_fields else 0
+    fields = {1: '/o', 3: 'M'}
+    extra = [(0x40 + (i % 100), 'u', i) for i in range(F)]
+    sig, trees = '', []
+    if with_body:
+        sig = case['body']
+        trees = [{'ay': list(range(250)) * 8, 'as': ['s%d' % i for i in range(250)],
+                  'a(ii)': [[i, -i] for i in range(250)]}[sig]]
+    n = len(fields) + (1 if sig else 0) + F
+    order = None
+    if sig:
+        spos = len(fields)                    # index of the signature field in the default order (codes 1, 3, 8, extras)
+        rest = [i for i in range(n) if i != spos]
+        at = {'first': 0, 'middle': len(rest) // 2, 'last': len(rest)}[case['sigpos']]
+        order = rest[:at] + [spos] + rest[at:]
+    return R.encode_message(1, 9, fields, sig, trees, case['little'], 0, order, extra)
+
+
+def run_additive(case):
+    from txdbus import message as MSG
+    out = []
+    cost = {}
+    for name, wf, wb in (('both', True, True), ('fields', True, False), ('body', False, True)):
+        raw = _additive_message(case, wf, wb)
+        m = B.Meter(10 ** 9)
+        st_, v = m.run(MSG.parseMessage, raw, [])
+        if st_ != 'ok':
+            return [Disc('additive.valid-message-refused:%s' % name, '%s: %r' % (st_, v))]
+        cost[name] = m.count
+    if cost['both'] > 3 * (cost['fields'] + cost['body']) + 5000:
+        out.append(Disc('additive.fields-times-body', '%d header fields and a %s body (signature field %s): %d traced lines, the '
+                        'fields alone %d, the body alone %d' % (case['F'], case['body'], case['sigpos'], cost['both'],
+                                                                cost['fields'], cost['body'])))
+    return out
+
+
 SUBCHECKS = [
     Subcheck('hostile', run, classify_, strategy=lambda tier: hostile_case(tier),
              n={'quick': 700, 'thorough': 8000}),
@@ -644,6 +697,9 @@ SUBCHECKS = [
                              % len(HOSTILE_SIGS)),
     Subcheck('overlap', run, classify_, enumerate=enum_overlap, shards={'quick': 8, 'thorough': 16},
              exhaustive_note='frames x inner element type x claimed inner length x element over-claim x outer length x byte order'),
+    Subcheck('additive', run_additive, lambda c: (True, ['F=%d' % c['F'], c['body'], 'signature_' + c['sigpos']]),
+             enumerate=enum_additive, shards={'quick': 4, 'thorough': 8},
+             exhaustive_note='unknown header fields (60 / 400 / 1500) x body kind x position of the SIGNATURE field x byte order'),
     Subcheck('length_sweep', run, classify_, enumerate=enum_length_sweep, shards={'quick': 4, 'thorough': 4},
              exhaustive_note='every length field of 2 fixed messages x 2 byte orders x 34 values around 2^32 and 2^31'),
     Subcheck('deep_valid', run, classify_, enumerate=enum_deep, shards={'quick': 4, 'thorough': 4},
